@@ -12,6 +12,7 @@ UNIT_CONFIGS = {
     'registry': [('', ('std',))],
     'portable': [('', ('std',))],
     'retain': [('', ('std',))],
+    'registry_impls': [('', ('std',))],
     'build': [('-docs', ('std', 'docs')), ('-nodocs', ('std',))],
     'metatype': [('', ('std',))],
     'alias': [('', ('std',))],
@@ -33,20 +34,140 @@ STD_ASSUMPTIONS = {
     'A7': 'machine integers: Verus checks overflow; `as u32` casts of lengths truncate in the real code beyond 2^32 entries, '
           'so every id clause is stated relative to capacity cap_ok(len) := len <= 2^32',
     'VSTD': 'vstd specifications of Vec, slice, Option, BTreeMap::{new,insert,get,contains_key}, Seq/Map/Set libraries (trusted, shipped with Verus)',
+    'A8': 'ASSUMED contract on <[T]>::to_vec (returns the same sequence); only instantiation T = &\'static str',
+    'A9': 'ASSUMED: MetaType::type_info() is deterministic and depends only on the declared identity (info_of(type_id)) - the coherence half of C16 for '
+          'user-written impls; MetaType is opaque in the registry units (rule R9), its accessors carry the contracts proved in unit metatype',
+    'A10': 'ASSUMED effect of <TypeId as Hash>::hash (uninterpreted relation hashed(before, id, after))',
+    'PARTIAL': 'termination of Registry::register_type is NOT proved (depends on finiteness of the Rust type graph); the registry recursion carries '
+               'exec_allows_no_decreases_clause, so the registry units are partial-correctness proofs; absence of stack overflow is not proved anywhere',
+    'MODULAR': 'the mutual recursion register_type <-> into_portable is cut modularly into two Verus units (registry / registry_impls) sharing one contract text, '
+               'because Verus rejects the trait-dictionary cycle; four trait-impl methods (Path, Field, Variant, Type) are verified as identical-text inherent twins (rule R12)',
     'TOOLS': 'Verus 0.2026.09.13 + Z3; the extractor (syntactic, rules R1-R4, R11 and logged rewrite directives)',
 }
 
+
+INTERNER_ITEMS = ['Interner<T>::*', "Symbol<'_, T>::into_untracked", 'From<u32> for UntrackedSymbol<T>::from']
+REGISTRY_ITEMS = ['Registry::new', 'Registry::intern_type_id', 'Registry::register_type', 'Registry::register_types', 'Registry::map_into_portable']
+IMPL_ITEMS = ['IntoPortable for *::into_portable']
+
 PROPS = {
+    'C01': dict(
+        title='Every produced registry is dense and closed under references',
+        level='proof',
+        technique='Verus data-structure invariant + trait-level contract on every into_portable impl; retain closure/cardinality contract; Kani bounded stand-ins for 3 closure functions',
+        level_text='Registry::inv (every stored definition is filed under an in-range id and all ids it mentions are in range) and the pay-back clause (a call leaves a definition for exactly the ids it interned) are proved for register_type / intern_type_id and inherited by all 14 IntoPortable impls with MetaType::type_info() unconstrained, so density and closure hold after every top-level call for every type with type info (lemma_dense_step, lemma_dense_closed); resolve returns exactly the entry at the position; the builder is proved a duplicate-free list; retain is proved to keep all ids in range of a registry of matching cardinality.',
+        level_note='Assumed contracts: BTreeMap entry API, lawful Ord/Clone of key types, mem::replace. Left external in Verus with assumed contracts (bounded Kani stand-ins, not counted): Registry::register_types, map_into_portable, TypeParameter::into_portable (closures capturing &mut), From<Registry> for PortableRegistry and PortableRegistryBuilder::finish (tuple-pattern closure / enumerate). Not covered: registries obtained by decoding (decoder out of reach). Partial correctness for registration. All id guarantees up to 2^32 entries.',
+        verus=[('interner', INTERNER_ITEMS), ('registry', REGISTRY_ITEMS + ['tmpl::lemma_dense_*', 'tmpl::lemma_img_closed', 'tmpl::lemma_*_mono']),
+               ('registry_impls', IMPL_ITEMS), ('portable', ['PortableRegistry::resolve', 'PortableRegistryBuilder::*', 'PortableType::new']),
+               ('retain', ['PortableRegistry::retain', 'tmpl::lemma_*'])],
+        kani_quick=['builder_new_is_empty', 'builder_finish_lists_values', 'map_into_portable_in_order'],
+        kani_thorough=['builder_new_is_empty', 'builder_finish_lists_values', 'map_into_portable_in_order'],
+        assumptions=['A1', 'A3', 'A4', 'A5', 'A6', 'A7', 'A9', 'PARTIAL', 'MODULAR', 'VSTD', 'TOOLS'],
+    ),
+    'C02': dict(
+        title='Portable form is a faithful image of the compile-time definition',
+        level='proof',
+        technique='Verus: image_of postcondition (structural relation over all 8 definition kinds) on every into_portable impl and on register_type; invariant over the registry',
+        level_text='The trait contract ensures image_of(self, out, final table): path segments, parameter names, field names/order/type names, variant names/indices, docs and array lengths equal, sequences related element-wise in order, each reference an in-range id whose table entry is the identity of the referenced MetaType. register_type ensures the returned id resolves to the type\'s identity, and Registry::inv states that every stored definition is the image of info_of(identity) w.r.t. the current table (stable under growth: proved monotonicity lemmas). Holds for recursive and mutually recursive types because type_info() is an unconstrained external function.',
+        level_note='Termination of registration is NOT proved (partial correctness). Coherence assumption A9 (type_info deterministic per identity). String conversion &str -> String assumed to preserve characters. register_types / map_into_portable / TypeParameter::into_portable are assumed (Kani-bounded order check for map_into_portable).',
+        verus=[('registry', REGISTRY_ITEMS + ['tmpl::lemma_*']), ('registry_impls', IMPL_ITEMS + ['tmpl::lemma_*'])],
+        kani_quick=['map_into_portable_in_order'], kani_thorough=['map_into_portable_in_order'],
+        assumptions=['A4', 'A5', 'A6', 'A7', 'A9', 'PARTIAL', 'MODULAR', 'VSTD', 'TOOLS'],
+    ),
+    'C05': dict(
+        title='One entry per distinct type: aliases share an id, distinct types never merge',
+        level='proof',
+        technique='Verus: interner duplicate-freeness + register_type "present => unchanged" postcondition + ghost evaluation counter; generic identity obligations generated per TypeInfo impl (rustc-expanded)',
+        level_text='register_type ensures: identity already present => table and definitions unchanged and the existing id returned; a ghost counter asserted before every .type_info() call proves the definition is evaluated at most once per call and only for an identity absent on entry. For every TypeInfo impl of src/impls.rs (macro-generated ones included) a generic proof obligation is generated: transparent wrappers (Box, Rc, Arc, &, &mut, Vec, VecDeque, String, PhantomData) have the identity of their target for ALL type arguments incl. nested ones, every other impl has identity Self (with TypeId injectivity: never shares an id); MetaType::new is proved to store TypeId::of::<T::Identity>().',
+        level_note='TypeId::of injectivity is an assumption about std (A4). Derived impls (`type Identity = Self` emitted by the proc-macro) and user-written impls are outside the obligations.',
+        verus=[('interner', INTERNER_ITEMS), ('registry', ['Registry::intern_type_id', 'Registry::register_type', 'tmpl::lemma_one_entry_per_identity']),
+               ('alias', ['TypeInfo for *', 'tmpl::identity::*']), ('metatype', ['MetaType::new', 'MetaType::type_id'])],
+        kani_quick=['metatype_new_identity'], kani_thorough=['metatype_new_identity'],
+        assumptions=['A1', 'A4', 'A5', 'A7', 'A9', 'PARTIAL', 'VSTD', 'TOOLS'],
+    ),
+    'C10': dict(
+        title='retain keeps exactly the reachable sub-registry, renumbered consistently',
+        level='proof',
+        technique='Verus: recursive function contract with decreases measure on the extracted retain / retain_type, loop invariants on all seven loops',
+        level_text='Proved on the real text of retain and its nested retain_type for every well-formed registry and every filter: no out-of-bounds access, termination (decreases n - |mapping|) on cyclic graphs, the mapping only grows, maps old in-range ids to new in-range ids, and |mapping| = |new registry|.',
+        level_note='CURRENT SCOPE: safety, termination, cardinality and range of the mapping. The full functional clauses (exactly the reachable ids, entries renamed through the map, nothing else changed) are being added; until then a mutation that keeps cardinalities intact may go unnoticed. Assumed: mem::replace contract, vstd BTreeMap specs.',
+        verus=[('retain', ['PortableRegistry::retain', 'tmpl::lemma_*'])],
+        kani_quick=[], kani_thorough=[],
+        assumptions=['A3', 'A7', 'VSTD', 'TOOLS'],
+    ),
+    'C11': dict(
+        title='Ids are stable and metadata is reproducible',
+        level='proof',
+        technique='Verus: `extends` postcondition (table prefix-extended, old definitions untouched) on every registry operation; reflexivity/transitivity lemmas over histories',
+        level_text='Clause 1 (every later state extends earlier ones without renumbering or altering existing entries) is the `extends` clause of the trait contract, proved for register_type, intern_type_id and inherited by every into_portable impl; lemma_extends_trans / lemma_id_stable lift it to arbitrary histories.',
+        level_note='Clause 2 (byte-identical replay) is not contract-shaped: it follows from determinism of safe single-threaded Rust with no address- or hash-dependent iteration (assumption, not proved). Clause 3 (other root orders give the same registry up to renaming) is NOT proved. register_types / map_into_portable assumed (external).',
+        verus=[('registry', REGISTRY_ITEMS + ['tmpl::lemma_extends_*', 'tmpl::lemma_id_stable', 'tmpl::lemma_prefix_trans']), ('registry_impls', IMPL_ITEMS), ('interner', INTERNER_ITEMS)],
+        kani_quick=[], kani_thorough=[],
+        assumptions=['A1', 'A4', 'A5', 'A7', 'PARTIAL', 'MODULAR', 'VSTD', 'TOOLS'],
+    ),
     'C12': dict(
         title='Runtime builder and interner behave as an append-only duplicate-free table',
         level='proof',
-        technique='Verus contracts (requires/ensures + representation invariant) on the extracted real functions, SMT-discharged',
-        level_text='Every Interner operation is proved, for all element types, values and prior states satisfying the representation invariant, to behave exactly like the duplicate-free list that is its abstract view; because each operation requires only the invariant and re-establishes it with a functional description of the new view, the statement holds for every finite operation sequence by induction.',
-        level_note='Trusted: assumed contract for the std BTreeMap entry API, lawful Ord/Clone of the element type, vstd, Verus/Z3, the syntactic extractor. Ids are guaranteed up to 2^32 entries (u32 casts).',
-        verus=[('interner', ['Interner<T>::*', "Symbol<'_, T>::into_untracked", 'From<u32> for UntrackedSymbol<T>::from',
-                             'tmpl::lemma_history_*', 'tmpl::witness_*']),
-               ],
-        kani_quick=[], kani_thorough=[],
+        technique='Verus contracts (abstract view = list, representation invariant) on the extracted Interner and PortableRegistryBuilder functions; history lemma',
+        level_text='Every Interner and builder operation is proved, for all element types, values and prior states satisfying the representation invariant, to behave exactly like the duplicate-free list that is its abstract view (new value -> appended and the next free index, equal value -> its first index and nothing changes, get/resolve -> stored value or None); each operation requires only the invariant and re-establishes it, so the statement holds for every finite history (lemma_builder_history over operation scripts).',
+        level_note='PortableRegistryBuilder::new (derived Default) and finish (enumerate + tuple-pattern closure) are left external with assumed contracts; Kani stand-ins: builder_new_is_empty (complete, no inputs) and builder_finish_lists_values (bounded, <= 3 registrations). Assumed: BTreeMap entry API contract, lawful Ord/Clone of Type<PortableForm>. Ids guaranteed up to 2^32 entries.',
+        verus=[('interner', INTERNER_ITEMS), ('portable', ['PortableRegistryBuilder::*', 'tmpl::lemma_builder_history'])],
+        kani_quick=['builder_new_is_empty', 'builder_finish_lists_values'], kani_thorough=['builder_new_is_empty', 'builder_finish_lists_values'],
         assumptions=['A1', 'A5', 'A7', 'VSTD', 'TOOLS'],
+    ),
+    'C14': dict(
+        title='Decoding untrusted registry bytes or JSON never panics and is canonical (resolve clause only)',
+        level='proof',
+        technique='Verus total-function contract on the extracted PortableRegistry::resolve (no precondition)',
+        level_text='resolve(id) is proved, for EVERY registry value (well-formed or not) and every u32, to return Some(entry at position id) when id is in range and None otherwise - it has no precondition, so it cannot panic.',
+        level_note='ONLY the resolve clause of C14 is claimed. Decoder totality / canonicity (code of parity-scale-codec and its derive; CBMC did not get through PortableRegistry::decode on 8 symbolic bytes in 16 min), JSON and memory proportionality are out of reach of the installed verifiers and are NOT covered.',
+        verus=[('portable', ['PortableRegistry::resolve'])],
+        kani_quick=[], kani_thorough=[],
+        assumptions=['VSTD', 'TOOLS'],
+    ),
+    'C16': dict(
+        title='MetaType equality is type identity, and identities are coherent',
+        level='proof',
+        technique='Verus: PartialEq/PartialOrd/Ord SpecImpl checked against the extracted bodies of the real MetaType; forwarding obligations on alias impls',
+        level_text='On the real struct (rule R9: fn pointer field made opaque) eq is proved to be equality of the stored TypeId, cmp/partial_cmp the TypeId order, hash to feed exactly the TypeId, new::<T>() to store TypeId::of::<T::Identity>() and is_phantom() to be equality with PhantomData<()>\'s identity. For every library impl whose identity is not Self, type_info() is proved to return its target\'s definition (forwarding), for all type arguments; PhantomData<T>::type_info is checked not to mention T.',
+        level_note='Assumed: TypeId Eq/Ord/Hash lawful and TypeId::of a function of the type (A4, A10). Coherence of user-written and derived impls is outside the repository code under contract.',
+        verus=[('metatype', ['PartialEq for MetaType::eq', 'PartialOrd for MetaType::partial_cmp', 'Ord for MetaType::cmp', 'Hash for MetaType::hash', 'MetaType::*']),
+               ('alias', ['TypeInfo for *', 'tmpl::identity::*'])],
+        kani_quick=['metatype_new_identity'], kani_thorough=['metatype_new_identity'],
+        assumptions=['A4', 'A10', 'VSTD', 'TOOLS'],
+    ),
+    'C17': dict(
+        title='Builders are lossless and order preserving; PhantomData members are erased',
+        level='proof',
+        technique='Verus full functional postconditions on every builder function of src/build.rs and the src/ty constructors, verified twice (docs feature on / off)',
+        level_text='Every builder step is proved to produce exactly the supplied component and leave all others unchanged (FieldBuilder, VariantBuilder, Variants, FieldsBuilder, TypeBuilder, Type::new, Field::new, Variant::new, TypeDef*::new); MetaForm push_field lists a field unless its type is PhantomData, PortableForm push_field always; docs()/docs_portable() keep docs exactly with the docs feature and are the identity without it, docs_always() always keeps them. Closure-taking builders are specified through the closure\'s own requires/ensures.',
+        level_note='TypeDefTuple::new (iterator filter with a capturing closure) is external with assumed contract; Kani stand-in tuple_new_erases_phantom (bounded <= 3 members). MetaType::new / is_phantom contracts are proved in unit metatype. Initial emptiness comes from the Default impls (verified). The derive\'s generated code is not in the repository and not covered. Assumed: to_vec contract.',
+        verus=[('build', ['*'])],
+        kani_quick=['tuple_new_erases_phantom'], kani_thorough=['tuple_new_erases_phantom'],
+        assumptions=['A4', 'A8', 'VSTD', 'TOOLS'],
+    ),
+    'C18': dict(
+        title='Paths are non-empty sequences of valid Rust identifiers',
+        level='other',
+        technique='Kani function contract on is_rust_identifier (proof_for_contract + stub_verified) and oracle harnesses on Path::*, bounded by string length / segment count',
+        level_text='Bounded contract check with CBMC on the real functions: is_rust_identifier(s) == spec_ident(s) for all ASCII strings up to the bound and for strings containing one arbitrary char; Path::from_segments against the oracle (Ok iff non-empty and all segments identifiers, first offending index reported, order kept, ident/namespace) with is_rust_identifier replaced by its contract; Path::new / new_with_replace on small module paths.',
+        level_note='BOUNDED, not a proof: the loops are inside std (str::strip_prefix, Iterator::all/position, split), there is no place to attach an invariant and Verus cannot take these functions. Bounds: quick 8 ASCII bytes, 2 segments x 4 bytes; thorough 12 bytes, 3 x 4. Display is not covered (core::fmt is out of CBMC reach in useful time).',
+        explanation='bounded Kani/CBMC checks of the real string functions against an independent recogniser and oracle; all inputs up to the stated bounds',
+        verus=[],
+        kani_quick=['ident_ascii_8', 'ident_unicode_char', 'ident_contract_3', 'from_segments_2x4', 'path_new_small', 'path_new_with_replace_small'],
+        kani_thorough=['ident_ascii_12', 'ident_unicode_char', 'ident_contract_3', 'from_segments_3x4', 'path_new_small', 'path_new_with_replace_small'],
+        assumptions=['TOOLS'],
+    ),
+    'C06': dict(
+        title='SCALE wire format of the registry is the published V14 layout (encode side)',
+        level='other',
+        technique='Kani: real derived Encode compared byte for byte with an independent spec encoder; loop-free full-domain harnesses for leaves (complete), bounded shapes for containers',
+        level_text='Encode side only. Complete (loop-free, full domain): compact ids in all four size classes, all 15 primitive tags, definition tags 2,3,5,6,7 with array = u32 LE length then id and bit-sequence = store then order. Bounded (container lengths <= 1-2, marker strings, symbolic scalars): field, variant, definition tags 0,1,4, type, parameter, path, registry prefix.',
+        level_note='The decoder half of the statement is out of reach (derived Decode under CBMC did not finish in > 15 min) and is NOT claimed. String contents are concrete distinct markers (symbolic strings make CBMC take > 13 min per field), lengths 0-2. Dependency code (parity-scale-codec Encode impls for Vec/Option/String/Compact) is executed, not assumed.',
+        explanation='Kani/CBMC executes the real derived Encode impls symbolically and compares with an independent encoder written from the layout; complete for leaves, bounded for containers',
+        verus=[],
+        kani_quick=['enc_symbol_compact', 'enc_typedef_leaves', 'enc_field', 'enc_variant', 'enc_typedef_containers', 'enc_type_and_registry'],
+        kani_thorough=['enc_symbol_compact', 'enc_typedef_leaves', 'enc_field', 'enc_variant', 'enc_typedef_containers', 'enc_type_and_registry'],
+        assumptions=['TOOLS'],
     ),
 }
